@@ -340,7 +340,8 @@ def _attrs(attrs, ch: Chooser, ascii_only):
     out = []
     for k, v in order:
         q = '"' if ch.next(2) == 0 else "'"
-        sep = "\n  " if ch.next(4) == 3 else " "
+        # any XML white space may separate the tag name / attributes: blank, line feed, CR LF, tab
+        sep = {3: "\n  ", 7: "\r\n  ", 5: "\t", 11: "\r"}.get(ch.next(12), " ")
         out.append(f"{sep}{k}={q}{_esc(v, q, ch, ascii_only=ascii_only)}{q}")
     return "".join(out)
 
